@@ -1,11 +1,14 @@
 import PlzVerif.Base.Proto
 import PlzVerif.Model.Sched
+import PlzVerif.Lemmas.SchedFacts
+import PlzVerif.Generated.C04
 /-!
 Driver for C04: replays an observed action log through the scheduler model as an acceptor.
 
   trace deps=0:;1:0 pk=.. roots=.. n=.. kg=.. fail=.. bad=.. miss=.. ev=S0,E0,S1,E1 rc=0
 
-Every state change goes through `fire` (so an accepted trace is an execution of the model).  For `S t` the
+Every state change goes through `fireG` at the wait-loop fact extracted from /repo on this run, which is `fire` for
+the pinned code (`C04_driver_runs_the_model`), so an accepted trace is an execution of the model.  For `S t` the
 driver fires, one at a time, the enabled actions that lead to `build.Build(t)` starting: activation of `t`,
 the steps of `t`'s building queuer (each `waitDeps` step is enabled only if that dependency has finished and
 takes the DependencyFailed branch if it failed), the dispatch of the task and `workerStart`; the event is
@@ -74,6 +77,9 @@ def parseCase (line : String) : Option Case := do
   if roots.isEmpty || roots.any (· ≥ n) || deps.any (·.any (· ≥ n)) || ev.any (·.2 ≥ n) then none
   pure ⟨deps, roots, ev, rc⟩
 
+/-- the wait loop as extracted from /repo on this run (none for the pinned code) -/
+def waitSkipRank : Option Nat := Facts.skipOf PlzVerif.Generated.C04.waitSkip
+
 def cfgOf (c : Case) : Cfg := ⟨c.deps.length, fun t => (c.deps[t]?).getD [], true⟩
 
 def findIdx (n : Nat) (p : Nat → Bool) : Option Nat := (List.range n).find? p
@@ -100,14 +106,14 @@ def driveStart (c : Cfg) (t : Nat) : Nat → St → Option St
     | none => none
     | some none => some s
     | some (some a) =>
-      match fire c s a with
+      match fireG c waitSkipRank s a with
       | some s' => driveStart c t f s'
       | none => none
 
 def finishWorker (c : Cfg) (s : St) (t : Nat) (ok : Bool) : Option St := do
   let w ← findIdx s.nextW (fun w => s.ws w == some ⟨t, .building⟩)
-  let s1 ← fire c s (if ok then .workerOk w .built false else .workerFail w)
-  fire c s1 (.workerDone w)
+  let s1 ← fireG c waitSkipRank s (if ok then .workerOk w .built false else .workerFail w)
+  fireG c waitSkipRank s1 (.workerDone w)
 
 def showList (l : List Nat) : String := if l.isEmpty then "-" else ",".intercalate (l.map toString)
 
